@@ -30,14 +30,15 @@ def main():
         det = {"seed": sid, "property": target, "applies": rc == 0, "results": {}}
         try:
             if rc == 0:
-                for pr in props:
-                    if "--all" not in os.environ.get("SEEDED_MODE", "--all") and pr != target:
-                        continue
+                from concurrent.futures import ThreadPoolExecutor
+                def one(pr):
                     rc2, o2 = sh(f"./check.sh {pr} {os.environ.get('SEEDED_TIER','quick')}", cwd=ROOT)
-                    v = [l for l in o2.splitlines() if l.startswith("VIOLATION") or l.startswith("BROKEN")]
                     lines = [l for l in o2.splitlines() if not l.startswith(("KNOWN-FINDING", "SUMMARY", "NOTE", "VIOLATION"))]
-                    if rc2 != 0:
-                        det["results"][pr] = {"exit": rc2, "reports": lines[:6]}
+                    return pr, rc2, lines
+                with ThreadPoolExecutor(max_workers=6) as ex:
+                    for pr, rc2, lines in ex.map(one, props):
+                        if rc2 != 0:
+                            det["results"][pr] = {"exit": rc2, "reports": lines[:6]}
         finally:
             sh("git -C /repo checkout -- . && git -C /repo clean -fdq")
         det["detected_by"] = sorted(k for k, v in det["results"].items() if v["exit"] == 1)
